@@ -7,6 +7,7 @@ import time
 
 VERIF = os.path.dirname(os.path.dirname(os.path.abspath(__file__)))
 KNOWN = os.path.join(VERIF, "known_findings.json")
+OUT = os.environ.get("NDV_OUT", VERIF)   # evidence/ and reports/ go here (redirected for seeded-change runs)
 
 
 def load_known():
@@ -87,7 +88,7 @@ class Check:
                 knowns.append(o)
             else:
                 violations.append(o)
-        rdir = os.path.join(VERIF, "reports", self.pid)
+        rdir = os.path.join(OUT, "reports", self.pid)
         os.makedirs(rdir, exist_ok=True)
         lines = []
         for o in knowns:
@@ -147,7 +148,7 @@ class Check:
             "wall_s": round(wall, 3),
             "violations": len(violations),
         }
-        edir = os.path.join(VERIF, "evidence")
+        edir = os.path.join(OUT, "evidence")
         os.makedirs(edir, exist_ok=True)
         with open(os.path.join(edir, self.pid + ".json"), "w") as fh:
             json.dump(ev, fh, indent=1, ensure_ascii=False)
